@@ -13,7 +13,9 @@ ID = "C07"
 RULE = ("One case = an operation (+ - * / ** neg == value(unit); ufuncs sqrt cbrt power sin cos tan arcsin arccos arctan "
         "isnan; functions abs round floor ceil sum linspace logspace) on operands drawn from: same unit, same dimension "
         "other unit (random unit expressions), dB/B/Np-type levels, Decimal magnitudes mixed with float, arrays, "
-        "with/without uncertainty, angles in deg/mrad, plain numbers; followed by up to 5 in-place calls "
+        "with/without uncertainty, angles in deg/mrad, plain numbers, bare numbers brought into cm/m-type quotients by "
+        "to(), the operand itself or -a / a+a as the other operand, augmented assignments (+= -= *= /=) on a second "
+        "reference; followed by up to 5 in-place calls "
         "(to(unit), rebase(), abse(e), rele(r)) on the result or on an operand. Oracle: value/units/abse snapshot of "
         "every operand taken before the operation must be reported unchanged after it (returned or raised), and after "
         "every in-place call on object X every OTHER object (operands and result) must report its snapshot. "
